@@ -106,6 +106,15 @@ def step (h : HState) (line : String) : HState × String :=
         if (h.abs.files[target]?).isSome then
           { world := a', broken := some "C01:add-member-overwrote-an-existing-member" }
         else if !(env.valid hk r.body) then { world := a', broken := some "C14:invalid-body-stored" }
+        else if hk != .plain && hkOfName n != hk then
+          -- the server picks the name: a calendar object (card) filed under a name that is not
+          -- recognised as one is invisible to the UID check, to queries and to its own content type
+          { world := a', broken := some "C06:add-member-name-hides-the-object-from-the-uid-check" }
+        else if (match env.uid hk r.body with
+                 | some u => (h.abs.members (Path.normpathS r.path)).any fun (m, t) =>
+                     m != n && hkOfName m == hk && env.uid hk t == some u
+                 | none => false) = true then
+          { world := a', broken := some "C06:duplicate-uid-accepted" }
         else { world := a' }
       | some (.refused why) => monitorPutRefused env h.abs { r with path := Path.joinS r.path "new" } why
       | _ => { world := h.abs }
